@@ -17,7 +17,7 @@ CFG = {
             "(hook H3: EGraph::verif_recheck_proof / verif_proof_check_program, ProofStore::verif_len) and comparing verdicts",
             "the harness parses the checking program printed by the hook (egglog text) and numbers its names for the model",
         ],
-        "theorem_backed": "the checker for Fiat / Rule / Trans / Sym / Congr steps over programs of top-level let/union/expression "
+        "theorem_backed": "[session 4] the proof checker's dispatch (justification kinds, every arm with premise counts, error kinds, comparisons, helper calls; 9 tables) is REGENERATED (gen/ProofChkFacts.v); c12_dispatch_table_drives_checker (the Gallina checker driven by the regenerated table = the hand checker), c12_tbl_accepted_iff_derivable, c12_dispatch_pinned (also the link-only MergeFn / ContainerNormalize / Eval arms are pinned in shape); the checker for Fiat / Rule / Trans / Sym / Congr steps over programs of top-level let/union/expression "
                           "actions and rules on constructors and relations (subsume/delete/panic actions contribute nothing): "
                           "soundness w.r.t. the derivation relation of the un-instrumented program for all programs and proofs, "
                           "rejection of every single-point alteration (rule or action removed, dropped premise, conclusion not in "
